@@ -400,6 +400,20 @@ fn write_data_to_stream<F: Read + Write + Seek>(
     })
 }
 
+/// Overwrites the bytes in `start..end` of a chain with zeros (does nothing
+/// if the range is empty).
+fn zero_fill<C: Write + Seek>(
+    chain: &mut C,
+    start: u64,
+    end: u64,
+) -> io::Result<()> {
+    if start < end {
+        chain.seek(SeekFrom::Start(start))?;
+        io::copy(&mut io::repeat(0).take(end - start), chain)?;
+    }
+    Ok(())
+}
+
 /// If `new_stream_len` is less than the stream's current length, then the
 /// stream will be truncated.  If it is greater than the stream's current size,
 /// then the stream will be padded with zero bytes.
@@ -422,6 +436,8 @@ fn resize_stream<F: Read + Write + Seek>(
             // into a new mini chain.
             let mut chain = minialloc.open_mini_chain(consts::END_OF_CHAIN)?;
             chain.set_len(new_stream_len)?;
+            // Mini sectors are not cleared when they are (re)allocated.
+            zero_fill(&mut chain, 0, new_stream_len)?;
             chain.start_sector_id()
         } else {
             // Case 1b: The new length is large enough that it should be placed
@@ -443,6 +459,9 @@ fn resize_stream<F: Read + Write + Seek>(
             // existing chain.
             let mut chain = minialloc.open_mini_chain(old_start_sector)?;
             chain.set_len(new_stream_len)?;
+            // Neither the rest of the old final mini sector nor any newly
+            // allocated mini sectors are guaranteed to be zero.
+            zero_fill(&mut chain, old_stream_len, new_stream_len)?;
             debug_assert_eq!(chain.start_sector_id(), old_start_sector);
             old_start_sector
         } else {
@@ -483,7 +502,15 @@ fn resize_stream<F: Read + Write + Seek>(
             // existing chain.
             let mut chain =
                 minialloc.open_chain(old_start_sector, SectorInit::Zero)?;
+            let old_chain_len = chain.len();
             chain.set_len(new_stream_len)?;
+            // New sectors are zeroed when allocated, but the rest of the old
+            // final sector may hold stale data from before an earlier shrink.
+            zero_fill(
+                &mut chain,
+                old_stream_len,
+                new_stream_len.min(old_chain_len),
+            )?;
             debug_assert_eq!(chain.start_sector_id(), old_start_sector);
             old_start_sector
         }
